@@ -26,6 +26,7 @@ func validateEnums(env *Environment, errorSink *validation.ErrorSink) *Environme
 
 		// verify that the enum symbols and integer values are unique
 		symbols := make(map[string]any)
+		generatedNames := make(map[string]string)
 		symbolsByVal := make(map[string][]string)
 		for _, enumValue := range enum.Values {
 			if !memberNameRegex.MatchString(enumValue.Symbol) {
@@ -36,7 +37,11 @@ func validateEnums(env *Environment, errorSink *validation.ErrorSink) *Environme
 			if _, found := symbols[enumValue.Symbol]; found {
 				errorSink.Add(validationError(enum, "in %s '%s', the symbol '%s' is defined more than once", enumKind, enum.Name, enumValue.Symbol))
 			} else {
+				if other, found := generatedNames[generatedMemberName(enumValue.Symbol)]; found {
+					errorSink.Add(validationError(enumValue, "in %s '%s', the symbols '%s' and '%s' are not distinct in generated code, where both become '%s'", enumKind, enum.Name, other, enumValue.Symbol, generatedMemberName(enumValue.Symbol)))
+				}
 				symbols[enumValue.Symbol] = nil
+				generatedNames[generatedMemberName(enumValue.Symbol)] = enumValue.Symbol
 			}
 		}
 
